@@ -34,7 +34,11 @@ Definition host_of (roots : list N) : host :=
   let sz := (N.of_nat (length roots) * sector_size)%N in
   mk_host roots (mk_rev 1 (mroot roots) sz sz big 0 big) 0.
 
-Definition nats (l : list N) : list nat := map N.to_nat l.
+(** wire indices are uint64; positions are [nat]. Anything >= 4096 is out of range for every
+    contract the harness builds (<= 64 sectors) and is clamped so that it stays a small
+    unary number (two distinct huge indices may collapse: both are refused as out of range
+    before duplicates matter). *)
+Definition nats (l : list N) : list nat := map (λ x, N.to_nat (N.min x 4096)) l.
 
 Definition request_of (c : case) : option request :=
   match c_kind c with
@@ -43,7 +47,7 @@ Definition request_of (c : case) : option request :=
   | 2%N => Some (AppendReq (combine (c_args c) (c_has c)) true true true usage_run)
   | 3%N => match c_args c with
            | [off; len] =>
-               Some (RootsReq (N.to_nat off) (N.to_nat len) true true
+               Some (RootsReq (N.to_nat (N.min off 4096)) (N.to_nat (N.min len 4096)) true true
                        (negb (N.eqb (c_script c) 3)) usage_run)
            | _ => None
            end
